@@ -1180,6 +1180,30 @@ func init() {
 				{"ssn", c.field("chunkSet", "ssn"), c.field("reassemblyQueue", "nextSSN"), c.field("reassemblyQueue", "ordered")},
 				{"mid", c.field("chunkSetMID", "mid"), c.field("reassemblyQueue", "nextMID"), c.field("reassemblyQueue", "orderedMID")},
 			}
+			// complete unordered messages are readable as soon as one is queued
+			for _, cn := range []string{"unordered", "unorderedMID"} {
+				cf := c.field("reassemblyQueue", cn)
+				dequeues := len(c.storesInRegion(rd, cf)) > 0
+				found := false
+				for _, r := range allReturns(ir) {
+					for _, lf := range leavesWithFacts(retResults(r)[0]) {
+						if IsConstBool(false)(lf.Val) {
+							continue
+						}
+						facts := append(append([]condFact{}, lf.Facts...), DomFactsX(r.Block())...)
+						if _, isK := lf.Val.(*ssa.Const); !isK {
+							cc, tt := normCond(lf.Val, true)
+							facts = append(facts, condFact{cc, tt})
+						}
+						for _, f := range facts {
+							if CmpCond(token.GTR, lenOf(cf, nil), IsConstInt(0))(f.Cond, f.Taken) || CmpCond(token.NEQ, lenOf(cf, nil), IsConstInt(0))(f.Cond, f.Taken) || CmpCond(token.GEQ, lenOf(cf, nil), IsConstInt(1))(f.Cond, f.Taken) {
+								found = true
+							}
+						}
+					}
+				}
+				c.Check(!dequeues || found, "readable-when-queued:"+cn, c.P.Pos(ir.Pos()), "a non-empty "+cn+" list makes the stream readable", "read() dequeues from "+cn+" but isReadable() never answers true because that list is non-empty: a complete unordered message wakes nobody")
+			}
 			for _, pr := range pairs {
 				xp, rp := IsLoadOf(pr.x), IsLoadOf(pr.ref)
 				readable := 0
@@ -1210,6 +1234,7 @@ func init() {
 						dequeued |= s
 					}
 				}
+				_ = dequeued
 				mask := snaAll &^ snaAntipode // RFC 1982 leaves the half-space distance undefined
 				c.Check(readable != 0 && dequeued != 0 && readable&mask == dequeued&mask, "readable-iff-dequeued:"+pr.name, c.P.Pos(ir.Pos()),
 					"both accept head "+pr.name+" "+snaSetName(readable&mask)+" relative to the next expected",
